@@ -64,6 +64,11 @@ Print Assumptions C12_lossy_keeps_valid_prefix.
 Theorem C12_lossy_ascii_from_input : forall b d, b <? 128 = true -> In b (lossy d) -> In b d.
 Proof. exact lossy_ascii_from_input. Qed.
 
+(* an ASCII byte occurs in the output exactly when it occurs in the input: replacement never produces or swallows one *)
+Theorem C12_lossy_ascii_bytes : forall b d, b <? 128 = true -> (In b (lossy d) <-> In b d).
+Proof. exact lossy_ascii_bytes. Qed.
+Print Assumptions C12_lossy_ascii_bytes.
+
 Theorem C12_lossy_idempotent : forall d, lossy (lossy d) = lossy d.
 Proof. exact lossy_idempotent. Qed.
 
